@@ -12,3 +12,20 @@ package types
 //@ ensures durations: err == nil ==> p.DowntimeJailDuration >= 60000000000 && p.ExitingDuration >= p.UnlockDuration
 //@ ensures reward: err == nil ==> p.InitialBlockReward >= 1 && p.HalvingInterval >= 1
 //@ modifies nothing
+
+// ---- system transactions handed to the execution layer (C06, C12, C15) -------------------------------------------------
+// The transaction value is go-ethereum code (opaque): callers identify the result with the uninterpreted ethtx_reward /
+// ethtx_unlock of the record and the nonce (assumed clause); the bodies are proved free of wrapping machine arithmetic.
+//@ func (*Reward).EthTx
+//@ property C06 C12
+//@ requires r != nil
+//@ ensures-assumed identity: result == ethtx_reward(r, seq) && result != nil
+//@ opt nooverflow=1
+//@ modifies nothing
+
+//@ func (*Unlock).EthTx
+//@ property C06 C15
+//@ requires l != nil
+//@ ensures-assumed identity: result == ethtx_unlock(l, seq) && result != nil
+//@ opt nooverflow=1
+//@ modifies nothing
